@@ -252,6 +252,8 @@ type Obs struct {
 	Strace  bool              `json:"strace"`
 	Crash   string            `json:"crash"`
 	Tbl     string            `json:"tbl"`
+	Level   string            `json:"level"`  // "" = forkexec.Runner directly | unshare | ptrace (runner-level launch)
+	Caller  int               `json:"caller"` // runner-level launches: uid of the calling process
 	Sock    string            `json:"sock"`   // low-table cases: first descriptor number that was free when Start was called
 	Orphan  string            `json:"orphan"` // launcher death cases: "gone" | "alive:<state>:<exe>" after the grace period
 	Cb      CbObs             `json:"cbobs"`
